@@ -3,7 +3,7 @@ package header_sync
 import (
 	"github.com/ontio/ontology-crypto/keypair"
 	vconfig "github.com/ontio/ontology/consensus/vbft/config"
-	"github.com/ontio/ontology/core/signature"
+	s "github.com/ontio/ontology-crypto/signature"
 	"github.com/ontio/ontology/smartcontract/service/native"
 	ccom "github.com/ontio/ontology/smartcontract/service/native/cross_chain/common"
 )
@@ -78,17 +78,19 @@ func Harness_C33_distinct_two_thirds() {
 	cover("accepted")
 	// ghost count: distinct member peers that have at least one verifying signature over the header hash
 	hash := hdr.Hash()
+	var sigs []*s.Signature
+	for _, blob := range hdr.SigData {
+		if so, e := s.Deserialize(blob); e == nil {
+			sigs = append(sigs, so)
+		}
+	}
 	count := 0
 	for _, k := range peers {
 		has := false
-		for _, s := range hdr.SigData {
-			if signature.Verify(k, hash[:], s) == nil {
-				has = true
-			}
+		for _, so := range sigs {
+			has = or(has, s.Verify(k, hash[:], so))
 		}
-		if has {
-			count++
-		}
+		count += iteInt(has, 1, 0)
 	}
 	assert(count*3 >= n*2, "accepted-header-has-two-thirds-distinct-valid-signers")
 }
